@@ -68,7 +68,20 @@ def m1_equivalence_rule(ctx) -> None:
     # the slot attribute is the index of the non-empty child in the original children
     init = P.need_method("EquivalenceRule", "__init__", own=True)
     from ..core import pattern as PT
-    if PT.find_all(init.node, "self.child_idx = rule.children.index(_M_c)") and PT.find_all(init.node, "self.actual_children = rule.children"):
+    rp = [p_ for p_ in D.param_names(init.node) if p_ != "self"][0]
+    idx_ok = False
+    for st_ in walk_local(init.node):
+        tg_, v_ = PT.assign_value(st_)
+        if tg_ is not None and norm(tg_) == "self.child_idx" and v_ is not None:
+            vx = D.expanded(init.node, v_)
+            # the kept child: the first non-empty child of the original rule, located among *all* its children
+            mt = PT.match(PT.compile_pattern(f"{rp}.children.index(_E_c)"), vx)
+            if mt is not None and mt["_E_c"] in (f"{rp}.non_empty_children()[0]",):
+                idx_ok = True
+            sup = [c for c in walk_local(init.node) if isinstance(c, ast.Call) and norm(c.func) == "super().__init__" and len(c.args) == 3]
+            if mt is not None and sup and norm(D.expanded(init.node, sup[0].args[2])) == f"({mt['_E_c']},)":
+                idx_ok = True
+    if idx_ok and PT.find_all(init.node, f"self.actual_children = {rp}.children"):
         ctx.ok("M1", "child_idx is the position of the non-empty child among the original children")
     else:
         ctx.violation("M1", init.node, "EquivalenceRule.__init__ must set child_idx = rule.children.index(child) and actual_children = rule.children", construct="EquivalenceRule.__init__ slot")
@@ -157,6 +170,21 @@ def m3_path_rule(ctx) -> None:
     else:
         ctx.violation("M3", bw.node, f"EquivalencePathRule.backward_map folds `{call_b}` over `{it_b}`; it must apply backward_map along reversed(self.rules): "
                       "with steps whose maps do not commute the object mapped back is another one", construct="EquivalencePathRule.backward_map fold")
+    # a step that gives nothing is noticed by StopIteration or an `is None` sentinel, never by the truth value of
+    # the object mapped back: objects can be falsy (the empty word)
+    for mm in (fw, bw):
+        for st in walk_local(mm.node):
+            tg, v = (st.targets[0], st.value) if isinstance(st, ast.Assign) and len(st.targets) == 1 else (None, None)
+            if isinstance(tg, ast.Name) and isinstance(v, ast.Call) and norm(v.func) == "next" and len(v.args) == 2:
+                nm = tg.id
+                for x in walk_local(mm.node):
+                    test = x.test if isinstance(x, (ast.If, ast.While, ast.IfExp)) else None
+                    if test is None:
+                        continue
+                    for y in ast.walk(test):
+                        if isinstance(y, ast.Name) and y.id == nm and not isinstance(getattr(y, "_parent", None), ast.Compare):
+                            ctx.violation("M3", x, f"{mm.qualname} decides whether a step gave an object by the truth value of `{nm}`: an object can be falsy (the empty word, the "
+                                          "empty tuple), and is then dropped although the step mapped it")
     init = P.need_method("EquivalencePathRule", "__init__", own=True)
     t = norm(init.node)
     if "super().__init__(rules[0].strategy, rules[0].comb_class, rules[-1].children)" in t and "self.rules = tuple(rules)" in t:
